@@ -146,6 +146,7 @@ inductive SiftEnd where
   | done (flagCleared capHit thrHit : Bool)   -- which of the three terminators fired in the last layer
   | raised                                    -- the extraction raised (error propagates)
   | outOfFuel                                 -- model artefact: the outer loop has no termination proof
+  deriving DecidableEq
 
 /-- The `while continue_sift` loop; state = (columns so far, running residual `proto_imf`).
     `X layer proto` is the single-IMF extraction (`none` = it raised). -/
@@ -171,11 +172,14 @@ def sift (X : Sig → Option (Sig × Bool)) (thr : Rat) (cap : Option Nat) (x : 
     List Sig × SiftEnd :=
   siftIx (fun _ => X) thr cap x fuel
 
-/-- `get_next_imf` as the extractor of `sift` -/
-def extractor (E : Sig → Env) (D : Sig → Sig → Rat) (o : ImfOpts) : Sig → Option (Sig × Bool) := fun p =>
-  match getNextImf E D o p with
+/-- `get_next_imf` as the extractor of `sift` (a convergence error propagates: `none`) -/
+def extractorIx (E : Nat → Sig → Env) (D : Sig → Sig → Rat) (o : ImfOpts) : Sig → Option (Sig × Bool) := fun p =>
+  match getNextImfIx E D o p with
   | .imf c f => some (c, f)
   | .convergeError => none
+
+def extractor (E : Sig → Env) (D : Sig → Sig → Rat) (o : ImfOpts) : Sig → Option (Sig × Bool) :=
+  extractorIx (fun _ => E) D o
 
 /-! ## driver ops -/
 
